@@ -89,7 +89,7 @@ class ListT:
     def __init__(self, elem: Kind, oneshot_possible: bool = False):
         self.elem = elem
         self.oneshot_possible = oneshot_possible
-        self.name = ("iter[" if oneshot_possible else "list[") + elem.name + "]"
+        self.name = ("iter[" if oneshot_possible else "list[") + (elem.name if elem is not None else "?") + "]"
 
 
 class DictT:
